@@ -2,6 +2,7 @@
 // functions of the absolute step alone.  Scalar variables (periodic or not).
 #pragma once
 #include <cmath>
+#include <map>
 #include <string>
 #include <vector>
 #include "json.h"
@@ -24,6 +25,8 @@ struct RestraintSpec {
   bool acc_work = false;
   std::vector<double> lower, upper; double lower_k = -1, upper_k = -1;   // walls (absolute constants, <0: use k)
   double stopping = 0; bool decreasing = false;                           // abmd
+  double h_lower = 0, h_width = 1, h_sigma = 0; std::vector<double> h_ref;   // histogram restraint: grid, Gaussian width, reference as given
+  bool h_documented_scale = false;   // compare with the documented integral itself instead of the implementation's M/width times it
   long first = 0;
   sim::J to_json() const;
   void from_json(sim::J const &j);
@@ -55,6 +58,9 @@ public:
   double work = 0;
   bool abmd_init = false; double abmd_ref = 0;
   long last_step = -1;
+  // staged thermodynamic integration: per lambda point, sum and number of the dU/dlambda samples of its window
+  struct TiAcc { double sum = 0; long n = 0; double scale = 0; };
+  std::map<int, TiAcc> ti;
 
   explicit RestraintModel(RestraintSpec const &sp) : s(sp) {}
 
@@ -87,6 +93,13 @@ public:
       if (s.decoupling) lam = 1.0 - lam;
     }
     return k0 + (k1 - k0) * std::pow(lam, s.exponent);
+  }
+
+  // lambda of the st-th point of a staged force-constant schedule (0..stages())
+  double lambda_of(int st) const {
+    if (!s.lambdas.empty()) return s.lambdas[(size_t)std::min<int>(st, (int)s.lambdas.size() - 1)];
+    double lam = (double)st / (double)stages();
+    return s.decoupling ? 1.0 - lam : lam;
   }
 
   // energy/forces for given centres and k
@@ -136,6 +149,31 @@ public:
       o.centers = {abmd_ref}; o.k = s.k;
       return o;
     }
+    if (s.type == "histogram") {
+      // documented: V = k/2 * integral (h - h0)^2 dxi on the mid-point grid, h = 1/(M sqrt(2 pi) sigma) sum_i exp(-(xi - xi_i)^2 / (2 sigma^2)),
+      // h0 rescaled to unit integral when it is not normalised
+      size_t M = x.size(), nb = s.h_ref.size(); double const kPi = 3.14159265358979323846;
+      std::vector<double> h0 = s.h_ref; double integral = 0; for (double v : h0) integral += v * s.h_width;
+      if (std::fabs(integral - 1.0) > 1e-9) for (double &v : h0) v /= integral;
+      double norm = 1.0 / ((double)M * std::sqrt(2.0 * kPi) * s.h_sigma);
+      std::vector<double> diff(nb);
+      for (size_t g = 0; g < nb; g++) {
+        double xg = s.h_lower + ((double)g + 0.5) * s.h_width, h = 0;
+        for (size_t i = 0; i < M; i++) h += norm * std::exp(-(xg - x[i]) * (xg - x[i]) / (2.0 * s.h_sigma * s.h_sigma));
+        diff[g] = h - h0[g];
+      }
+      double scale = s.h_documented_scale ? 1.0 : (double)M / s.h_width;   // (the implementation sums without the grid spacing and multiplies k by M: recorded finding)
+      o.energy = 0; o.force.assign(M, 0.0);
+      for (size_t g = 0; g < nb; g++) o.energy += 0.5 * s.k * diff[g] * diff[g] * s.h_width * scale;
+      for (size_t i = 0; i < M; i++)
+        for (size_t g = 0; g < nb; g++) {
+          double xg = s.h_lower + ((double)g + 0.5) * s.h_width;
+          double dh = norm * std::exp(-(xg - x[i]) * (xg - x[i]) / (2.0 * s.h_sigma * s.h_sigma)) * (xg - x[i]) / (s.h_sigma * s.h_sigma);
+          o.force[i] -= s.k * diff[g] * dh * s.h_width * scale;
+        }
+      o.k = s.k;
+      return o;
+    }
     std::vector<double> c = centers_at(t);
     double k = k_at(t);
     double du = 0;
@@ -148,6 +186,17 @@ public:
       }
       if (s.chg_k || s.decoupling) work += du * (k - k_at(t - 1));
     }
+    // staged TI: the window of lambda point st is (first + st N, first + (st+1) N]; the first `equil` steps of every
+    // targetNumSteps-cycle are discarded; every step counts once however often it is presented
+    int S = stages();
+    if (S > 0 && (s.chg_k || s.decoupling) && !repeated && t > s.first) {
+      long rel = t - s.first; int st = (int)((rel - 1) / s.nsteps); long rem = rel % s.nsteps;
+      if (s.equil == 0 || rem >= s.equil) {
+        double k0 = s.decoupling ? 0.0 : s.k, k1 = s.decoupling ? s.k : s.k1, lam = lambda_of(std::min(st, S));   // (after the last point the constant stays and the windows go on)
+        double v = s.exponent * std::pow(lam, s.exponent - 1.0) * (k1 - k0) * du;
+        ti[st].sum += v; ti[st].n++; ti[st].scale = std::max(ti[st].scale, std::fabs(v));
+      }
+    }
     o.work = work;
     last_step = t;
     return o;
@@ -156,6 +205,8 @@ public:
 
 inline sim::J RestraintSpec::to_json() const {
   sim::J j = sim::J::obj();
+  j["h_lower"] = h_lower; j["h_width"] = h_width; j["h_sigma"] = h_sigma; j["h_documented_scale"] = h_documented_scale;
+  { sim::J a = sim::J::arr(); for (double v : h_ref) a.push(v); j["h_ref"] = a; }
   j["type"] = type; j["name"] = name; j["k"] = k; j["chg_k"] = chg_k; j["k1"] = k1; j["decoupling"] = decoupling;
   j["nsteps"] = (long long)nsteps; j["nstages"] = nstages; j["equil"] = (long long)equil; j["exponent"] = exponent; j["acc_work"] = acc_work;
   j["lower_k"] = lower_k; j["upper_k"] = upper_k; j["stopping"] = stopping; j["decreasing"] = decreasing; j["first"] = (long long)first;
@@ -173,6 +224,7 @@ inline void RestraintSpec::from_json(sim::J const &j) {
   stopping = j.at("stopping").as_num(); decreasing = j.at("decreasing").as_bool(); first = (long)j.at("first").as_int();
   auto arr = [](sim::J const &a) { std::vector<double> v; for (auto const &x : a.a) v.push_back(x.as_num()); return v; };
   c0 = arr(j.at("c0")); c1 = arr(j.at("c1")); lambdas = arr(j.at("lambdas")); lower = arr(j.at("lower")); upper = arr(j.at("upper"));
+  h_lower = j.at("h_lower").as_num(); h_width = j.at("h_width").as_num(1); h_sigma = j.at("h_sigma").as_num(); h_documented_scale = j.at("h_documented_scale").as_bool(); h_ref = arr(j.at("h_ref"));
   cvs.clear();
   for (auto const &o : j.at("cvs").a) { RCv c; c.name = o.at("name").as_str(); c.width = o.at("width").as_num(1); c.periodic = o.at("periodic").as_bool(); cvs.push_back(c); }
 }
